@@ -206,10 +206,21 @@ func TestCipherSuiteWalkBounded(t *testing.T) {
 var stdEntities = []byte{0x37, 0x03, 0x07}  // air inlet, processor, system board
 var dcmiEntities = []byte{0x40, 0x41, 0x42} // DCMI air inlet, processor, baseboard
 
-func ids(base, n int) []uint16 {
+// ids returns n distinct record IDs. Record IDs are opaque: the order the BMC
+// reports them in need not be numeric, so styles 1 and 2 report them
+// descending and scrambled (multiplication by an odd constant is a bijection
+// on 16 bits, so they stay distinct).
+func ids(base, n, style int) []uint16 {
 	out := make([]uint16, n)
 	for i := range out {
-		out[i] = uint16(base + i*3)
+		v := uint16(base + i*3)
+		switch style % 3 {
+		case 1:
+			v = uint16(base + (n-1-i)*3)
+		case 2:
+			v = v*0x9E37 + 0x1234
+		}
+		out[i] = v
 	}
 	return out
 }
@@ -243,17 +254,17 @@ func TestDCMIGrid(t *testing.T) {
 				b.Data.DCMIIDs, b.Data.DCMIErr, b.Data.DCMIReqs, b.Data.DCMIPage = map[byte][]uint16{}, map[byte]byte{}, nil, page
 				var wantStd, wantDCMI [3][]uint16
 				for e := 0; e < 3; e++ {
-					wantDCMI[e] = ids(0x4000+e*0x100, counts[(e+1)%3])
+					wantDCMI[e] = ids(0x4000+e*0x100, counts[(e+1)%3], n+page+e)
 					b.Data.DCMIIDs[dcmiEntities[e]] = wantDCMI[e]
 					switch mode {
 					case 0:
-						wantStd[e] = ids(0x100+e*0x1000, counts[e])
+						wantStd[e] = ids(0x100+e*0x1000, counts[e], n+page+e+1)
 						b.Data.DCMIIDs[stdEntities[e]] = wantStd[e]
 					case 2:
 						if e == n%3 {
 							b.Data.DCMIErr[stdEntities[e]] = 0xCC
 						} else {
-							b.Data.DCMIIDs[stdEntities[e]] = ids(0x100, counts[e])
+							b.Data.DCMIIDs[stdEntities[e]] = ids(0x100, counts[e], 0)
 						}
 					}
 				}
@@ -320,6 +331,9 @@ func TestDCMIGrid(t *testing.T) {
 						pages = len(s)
 					}
 				}
+				if len(want[0]) >= 2 && want[0][0] > want[0][1] {
+					ev.Label("dcmi:record-ids-not-ascending")
+				}
 				if pages >= 2 {
 					ev.Label(fmt.Sprintf("dcmi:multi-page:mode%d", mode))
 				}
@@ -333,7 +347,7 @@ func TestDCMIGrid(t *testing.T) {
 }
 
 func TestCoverage(t *testing.T) {
-	need := []string{"cs:second-enumeration-on-the-connection", "cs:walk-bounded", "dcmi-grid-complete", "dcmi:multi-page:mode0", "dcmi:multi-page:mode1", "dcmi:multi-page:mode2", "cs:exact-multiple-of-16", "cs:chunks=1", "cs:chunks=2", "cs:chunks=3", "cs:chunks=5",
+	need := []string{"cs:second-enumeration-on-the-connection", "cs:walk-bounded", "dcmi-grid-complete", "dcmi:record-ids-not-ascending", "dcmi:multi-page:mode0", "dcmi:multi-page:mode1", "dcmi:multi-page:mode2", "cs:exact-multiple-of-16", "cs:chunks=1", "cs:chunks=2", "cs:chunks=3", "cs:chunks=5",
 		"cs:malformed:last record cut short", "cs:malformed:first byte is not a record start"}
 	ev.RequireLabels(t, 1, need...)
 }
